@@ -871,17 +871,22 @@ pub(super) fn translate_ident(
 
 pub(super) fn translate_ident_part(ident: String, ctx: &Context) -> sql_ast::Ident {
     let is_bare = valid_ident().is_match(&ident);
+    // sqlparser's printer does not double a quote character that follows a backslash or
+    // another quote character (it assumes the name is escaped already): double them here.
+    let quoted = |ident: String| {
+        let quote = ctx.dialect.ident_quote();
+        let doubled = ident.replace(quote, &format!("{quote}{quote}"));
+        sql_ast::Ident::with_quote(quote, doubled)
+    };
     match ctx.dialect.ident_quoting_style() {
         IdentQuotingStyle::ConditionallyQuoted => {
             if is_bare && !keywords::is_keyword(&ident, &ctx.dialect_enum) {
                 sql_ast::Ident::new(ident)
             } else {
-                sql_ast::Ident::with_quote(ctx.dialect.ident_quote(), ident)
+                quoted(ident)
             }
         }
-        IdentQuotingStyle::AlwaysQuoted => {
-            sql_ast::Ident::with_quote(ctx.dialect.ident_quote(), ident)
-        }
+        IdentQuotingStyle::AlwaysQuoted => quoted(ident),
     }
 }
 
